@@ -224,7 +224,7 @@ fn disturb<A: Alphabet>(rng: &mut Rng, rep: &mut Report, st: &Setup<A>, t: &mut 
     let n = rng.below(3);
     let mut ops = Vec::new();
     for _ in 0..n {
-        let which = rng.below(6);
+        let which = rng.below(7);
         ops.push(which);
         let r = guard(|| match which {
             0 => {
@@ -243,6 +243,10 @@ fn disturb<A: Alphabet>(rng: &mut Rng, rep: &mut Report, st: &Setup<A>, t: &mut 
             }
             4 => {
                 let _ = t.score(0.3);
+            }
+            6 => {
+                // abandoned after the first (0.1) step
+                let _ = t.approximate_score(0.2).next();
             }
             _ => {
                 let mut it = t.approximate_score(0.01);
@@ -278,6 +282,10 @@ fn disturb_ref<A: Alphabet>(ops: &[usize], st: &Setup<A>, t: &mut crate::tfm_ref
             }
             4 => {
                 let _ = t.score(0.3);
+            }
+            6 => {
+                // abandoned after the first (0.1) step
+                let _ = t.approximate_score(0.2).next();
             }
             _ => {
                 let mut it = t.approximate_score(0.01);
